@@ -58,6 +58,8 @@ class Corpus:
         cases = load_corpus(prop or rep.prop) + (extra_cases or [])
         self.n_corpus = len(cases)
         cases += hist.gen_histories(self.g, rep.seed, per_type, maxlen=maxlen, mode=mode, types=types, guided=guided)
+        if types is None and extra_cases is None:
+            cases += incomplete_word_cases(self.g, rep.seed, 12 if per_type < 100 else 80)
         self.cases = cases
         self.impl = impl.run_cases(cases)
         self.model = self.m.run_py(cases)
